@@ -22,6 +22,11 @@ pub mod v1 {
 pub mod v2 {
     pub struct Cfg(pub u32);
 }
+/// types parameterised by constants: `type_name` prints the constant (`Drive<'C'>`, `Dim<3>`,
+/// `Flag<true>`); a gate that drops quoted text or digits as "noise" would confuse these
+pub struct Drive<const L: char>;
+pub struct Dim<const N: usize>;
+pub struct Flag<const B: bool>;
 /// a non-ASCII type name: byte offsets into the rendered text differ from character counts
 #[allow(non_camel_case_types, dead_code)]
 pub struct Größe(pub u8);
@@ -41,12 +46,12 @@ macro_rules! family {
     ($( ($idx:literal, $descr:literal, $name:ident, $lv:expr, [$($q:tt)*], ($($p:ty),*), $r:ty) ),* $(,)?) => {
         pub mod tg {
             #![allow(unused, improper_ctypes_definitions, clippy::all)]
-            use super::{m, v1, v2};
+            use super::{m, v1, v2, Dim, Drive, Flag};
             $( #[inline(never)] pub $($q)* fn $name($(_: $p),*) -> $r { unimplemented!() } )*
         }
         pub mod fk {
             #![allow(unused, improper_ctypes_definitions, clippy::all)]
-            use super::{m, v1, v2};
+            use super::{m, v1, v2, Dim, Drive, Flag};
             $( #[inline(never)] pub $($q)* fn $name($(_: $p),*) -> $r { unimplemented!() } )*
         }
         pub fn family() -> Vec<Entry> {
@@ -107,6 +112,13 @@ family! {
     (40, "F0r:1.Pi32.Phx::sigs::v2::Cfg",    f40, None, [], (i32), v2::Cfg),
     (41, "F0r:1.Pi32.Gcore::option::Option:1.Phx::sigs::v1::Cfg", f41, None, [], (i32), Option<v1::Cfg>),
     (42, "F0r:1.Pi32.Gcore::option::Option:1.Phx::sigs::v2::Cfg", f42, None, [], (i32), Option<v2::Cfg>),
+    (43, "F0r:1.Ghx::sigs::Drive:1.P'C'.Pbool", f43, None, [], (Drive<'C'>), bool),
+    (44, "F0r:1.Ghx::sigs::Drive:1.P'D'.Pbool", f44, None, [], (Drive<'D'>), bool),
+    (45, "F0r:1.Ghx::sigs::Drive:1.P'c'.Pbool", f45, None, [], (Drive<'c'>), bool),
+    (46, "F0r:1.Ghx::sigs::Dim:1.P3.Pbool",   f46, None, [], (Dim<3>), bool),
+    (47, "F0r:1.Ghx::sigs::Dim:1.P4.Pbool",   f47, None, [], (Dim<4>), bool),
+    (48, "F0r:1.Pi32.Ghx::sigs::Flag:1.Ptrue", f48, None, [], (i32), Flag<true>),
+    (49, "F0r:1.Pi32.Ghx::sigs::Flag:1.Pfalse", f49, None, [], (i32), Flag<false>),
 }
 
 pub struct BoolEntry {
@@ -187,6 +199,14 @@ fn canon(s: &str) -> String {
             while i < b.len() && b[i] == ' ' {
                 i += 1;
             }
+            continue;
+        }
+        if b[i] == '\'' && i + 2 < b.len() && b[i + 2] == '\'' {
+            // a char constant (`Drive<'C'>`), not a lifetime: kept as written
+            out.push(b[i]);
+            out.push(b[i + 1]);
+            out.push(b[i + 2]);
+            i += 3;
             continue;
         }
         if b[i] == '\'' {
